@@ -56,7 +56,9 @@ def gen_op(rng, fam, force=None):
             nseg = rng.choice([2, 10, 44, 64])
             seg = rng.choice([1200, 1452, maxlen // nseg, rng.range(200, maxlen // nseg)])
         else:                          # more segments than any kernel accepts in one send
-            nseg = rng.range(65, 70) if sendmode == 0 else rng.range(2, 20)
+            # 65..70: beyond max_gso_segments() but accepted by kernels with UDP_MAX_SEGMENTS = 128;
+            # 129..140: rejected with EINVAL -> the implementation halts offload and sets sendmsg_einval
+            nseg = rng.choice([rng.range(65, 70), rng.range(129, 140)]) if sendmode == 0 else rng.range(2, 20)
             seg = rng.choice([1, 5, 50, rng.range(1, 60)])
         last = rng.choice([seg, seg, 1, max(1, seg - 1), rng.range(1, seg)])
         clen = min(maxlen, (nseg - 1) * seg + last)
@@ -73,7 +75,8 @@ def gen(rng, n):
     for _ in range(n):
         fam = rng.choice([0, 0, 1, 1, 2, 3])
         ops = [gen_op(rng, fam)]
-        if rng.chance(1, 4):
+        beyond = ops[0][9] == 0 and 0 < ops[0][2] and (ops[0][1] + ops[0][2] - 1) // ops[0][2] > 128
+        if beyond or rng.chance(1, 4):
             o2 = gen_op(rng, fam)
             o2[10] = max(o2[10], ops[0][10])   # GRO stays off once switched off
             o2[11] = max(o2[11], ops[0][11])   # the einval flag is sticky
